@@ -41,13 +41,14 @@ LEAN_T = {'int': 'Int', 'str': 'Str', 'bool': 'Bool', 'optpoint': 'Option Point'
           'pairs': 'List (Nat × Nat)', 'fmtitems': 'Fmts', 'optint': 'Option Int', 'optstr': 'Option Str', 'char': 'Char',
           'idxmap': 'List (Int × List Setting)', 'ilist': 'List Int',
           'strlist': 'List Str', 'effdict': 'PyDict', 'effkey': 'Nat', 'effkeys': 'List Nat',
-          'olist': 'List AStr', 'pairlist': 'List (Int × Int)'}
+          'olist': 'List AStr', 'pairlist': 'List (Int × Int)', 'match': 'Option Re.Caps', 'nat': 'Nat'}
 OPT_OF = {'int': 'optint', 'str': 'optstr', 'slist': 'optslist'}
 BASE_OF = {v: k for k, v in OPT_OF.items()}
 
 
 class Sig:
-    def __init__(self, fn):
+    def __init__(self, fn, types=None):
+        types = types or {}
         a = fn.args
         if a.vararg or a.kwarg or a.kwonlyargs or a.posonlyargs:
             raise Unsupported('signature')
@@ -57,6 +58,9 @@ class Sig:
         self.params = []
         defaults = [None] * (len(a.args) - len(a.defaults)) + list(a.defaults)
         for x, d in list(zip(a.args, defaults))[1:]:
+            if x.arg in types:
+                self.params.append((x.arg, types[x.arg], d))
+                continue
             t = ast.unparse(x.annotation) if x.annotation is not None else None
             opt_ann = {'Union[str, None]': 'optstr', 'Optional[str]': 'optstr', 'Union[None, str]': 'optstr',
                        'Union[int, None]': 'optint', 'Optional[int]': 'optint', 'Union[None, int]': 'optint'}
@@ -74,9 +78,10 @@ class Sig:
 
 
 class M:
-    def __init__(self, fn, sigs):
+    def __init__(self, fn, sigs, types=None, extra=None):
         self.fn = fn
-        self.sig = Sig(fn)
+        self.sig = Sig(fn, types)
+        self.extra = list(extra or [])
         self.sigs = sigs          # name -> Sig of the methods translated so far (callable)
         self.aliased = False
         self.pending = []         # reads of `O._fmts[k]` hoisted in front of the current statement
@@ -136,6 +141,16 @@ class M:
             return '({} : AStr)'
         return None
 
+    def regex_site(self, call):
+        """1-based position of this `re.*` call among the `re.*` calls of the function, in source order"""
+        sites = [n for n in ast.walk(self.fn) if isinstance(n, ast.Call) and isinstance(n.func, ast.Attribute)
+                 and isinstance(n.func.value, ast.Name) and n.func.value.id == 're']
+        sites.sort(key=lambda n: (n.lineno, n.col_offset))
+        for k, n in enumerate(sites):
+            if n is call:
+                return k + 1
+        raise Unsupported('regex call site')
+
     def assigned_none(self, name):
         return any(isinstance(n, ast.Assign) and len(n.targets) == 1 and isinstance(n.targets[0], ast.Name) and n.targets[0].id == name
                    and isinstance(n.value, ast.Constant) and n.value.value is None for n in ast.walk(self.fn))
@@ -151,6 +166,8 @@ class M:
                     return 'optpoint'
                 if isinstance(v, ast.Constant) and isinstance(v.value, int) and not isinstance(v.value, bool):
                     return 'optint'
+                if isinstance(v, ast.Subscript) and isinstance(v.value, ast.Name) and (env or {}).get(v.value.id) == 'strlist':
+                    return 'optstr'
                 if isinstance(v, ast.Name):
                     ty = (env or {}).get(v.id)
                     if ty in OPT_OF:
@@ -187,6 +204,36 @@ class M:
                     return '([] : Str)', 'str'
                 return '([%s] : Str)' % ', '.join('Char.ofNat %d' % ord(c) for c in e.value), 'str'
             raise Unsupported('constant %r' % (e.value,))
+        # re.search(<literal>, s) / re.match(<literal>, s): the k-th call site of this function in Generated/Regexes.lean
+        if isinstance(e, ast.Call) and isinstance(e.func, ast.Attribute) and isinstance(e.func.value, ast.Name) and e.func.value.id == 're' \
+                and e.func.attr in ('search', 'match') and len(e.args) == 2 and not e.keywords and isinstance(e.args[0], ast.Constant) \
+                and isinstance(e.args[0].value, str):
+            k = self.regex_site(e)
+            return '(Re.matchStart regex_%s_%d %s)' % (self.fn.name.strip('_'), k, self.typed(e.args[1], env, 'str')), 'match'
+        if isinstance(e, ast.Call) and isinstance(e.func, ast.Attribute) and e.func.attr == 'group' and len(e.args) == 1 and not e.keywords \
+                and isinstance(e.func.value, ast.Name) and env.get(e.func.value.id) == 'match' \
+                and isinstance(e.args[0], ast.Constant) and isinstance(e.args[0].value, int):
+            caps = self.hoist('Py.optGet %s' % mangle(e.func.value.id))          # `None.group` raises: the match is needed
+            return '(Re.group %s %d)' % (caps, e.args[0].value), 'optstr'
+        if isinstance(e, ast.Call) and isinstance(e.func, ast.Name) and e.func.id == 'int' and len(e.args) == 1 and not e.keywords:
+            a = self.typed(e.args[0], env, 'str')
+            return self.hoist('Py.pyInt %s' % a), 'int'                          # ValueError unless an integer literal
+        if isinstance(e, ast.Call) and isinstance(e.func, ast.Attribute) and e.func.attr == 'is_optimizable' and not e.args and not e.keywords \
+                and self.obj_of(e.func.value, env):
+            return '(AStr.isFormattingParsable %s)' % self.obj_of(e.func.value, env), 'bool'
+        if isinstance(e, ast.Attribute) and e.attr == '_fmts' and self.obj_of(e.value, env) and getattr(self, '_truth', False):
+            return '(!(%s.fmts).isEmpty)' % self.obj_of(e.value, env), 'bool'
+        if isinstance(e, ast.BoolOp) and isinstance(e.op, ast.Or) and len(e.values) == 2 and not getattr(self, '_truth', False):
+            # `a or b` as a value: a where a is truthy, else b  (strings)
+            try:
+                saved = list(self.pending)
+                a, ta = self.ex(e.values[0], env)
+                b_, tb = self.ex(e.values[1], env)
+                if ta == 'optstr' and tb == 'str':
+                    return '(Py.optStrOr %s %s)' % (a, b_), 'str'
+                self.pending = saved
+            except Unsupported:
+                self.pending = saved
         if isinstance(e, ast.Name) and e.id == 'ansi_escape_clear' and e.id not in env:
             return 'escapeClear', 'str'                          # module constants, regenerated in Tables.lean
         if isinstance(e, ast.Name) and e.id == 'ansi_sep' and e.id not in env:
@@ -230,10 +277,8 @@ class M:
                 return '(%s, %s)' % (a, b_), 'intpair'
             raise Unsupported(ast.unparse(e))
         if isinstance(e, ast.List) and e.elts:
-            parts = [self.ex(x, env) for x in e.elts]
-            if all(t == 'str' for _, t in parts):
-                return '[%s]' % ', '.join(a for a, _ in parts), 'strlist'
-            raise Unsupported(ast.unparse(e))
+            parts = [self.typed(x, env, 'str') for x in e.elts]          # an optional string is needed as a string here
+            return '[%s]' % ', '.join(parts), 'strlist'
         if isinstance(e, ast.ListComp) and len(e.generators) == 1 and not e.generators[0].is_async \
                 and isinstance(e.elt, ast.Call) and isinstance(e.elt.func, ast.Name) and e.elt.func.id == 'str' and len(e.elt.args) == 1:
             g = e.generators[0]
@@ -287,6 +332,8 @@ class M:
             return '([] : List Setting)', 'slist'
         if isinstance(e, ast.Subscript) and isinstance(e.slice, ast.Slice) and e.slice.step is None:
             a, ta = self.ex(e.value, env)
+            if ta in ('optstr', 'optslist'):
+                a, ta = self.hoist('Py.optGet %s' % a), BASE_OF[ta]      # slicing `None` raises: the value is needed
             if ta in ('slist', 'str'):
                 lo = '(none : Option Int)' if e.slice.lower is None else '(some %s)' % self.typed(e.slice.lower, env, 'int')
                 hi = '(none : Option Int)' if e.slice.upper is None else '(some %s)' % self.typed(e.slice.upper, env, 'int')
@@ -385,6 +432,9 @@ class M:
             if ta == 'slist':
                 i = self.typed(e.slice, env, 'int')
                 return self.hoist('Py.getIdx %s %s' % (a, i)), 'setting'      # IndexError outside the list
+            if ta == 'strlist':
+                i = self.typed(e.slice, env, 'int')
+                return self.hoist('Py.getIdx %s %s' % (a, i)), 'str'
         if isinstance(e, ast.Call) and isinstance(e.func, ast.Name) and e.func.id == 'list' and len(e.args) == 1 and not e.keywords:
             return self.typed(e.args[0], env, 'slist'), 'slist'          # a copy: the same value
         if isinstance(e, ast.Call) and isinstance(e.func, ast.Name) and e.func.id == '_AnsiSettingPoint':
@@ -548,6 +598,8 @@ class M:
                 return '(decide (%s %s %s))' % (a, ops[type(o)], b_), 'bool'
             if isinstance(o, (ast.Eq, ast.NotEq)) and ta == tb and ta in ('str', 'bool'):
                 return '(%s %s %s)' % (a, '==' if isinstance(o, ast.Eq) else '!=', b_), 'bool'
+            if isinstance(o, (ast.Eq, ast.NotEq)) and (ta, tb) == ('optstr', 'str'):
+                return '(%s %s some %s)' % (a, '==' if isinstance(o, ast.Eq) else '!=', b_), 'bool'
             if isinstance(o, (ast.Eq, ast.NotEq)) and (ta, tb) == ('optint', 'int'):
                 return '(%s %s some %s)' % (a, '==' if isinstance(o, ast.Eq) else '!=', b_), 'bool'
             if isinstance(o, (ast.Eq, ast.NotEq)) and ta == tb == 'slist':
@@ -556,7 +608,16 @@ class M:
         raise Unsupported(ast.unparse(e))
 
     def b(self, e, env):
-        a, t = self.ex(e, env)
+        old_truth = getattr(self, '_truth', False)
+        self._truth = True
+        try:
+            a, t = self.ex(e, env)
+        finally:
+            self._truth = old_truth
+        if t == 'optstr':
+            return '(Py.truthyOptStr %s)' % a
+        if t == 'match':
+            return '(%s).isSome' % a
         if t in ('slist', 'str', 'strlist'):
             return '(!(%s).isEmpty)' % a
         if t == 'optslist':
@@ -617,7 +678,7 @@ class M:
                 o = self.obj_of(st.value.func.value, env)
                 args = self.bind(st.value, self.sigs[st.value.func.attr], env)
                 pre = self.pre(p)
-                return '%s%s(%s %s %s)' % (pre, p, lean_name(st.value.func.attr), o, ' '.join(args))
+                return '%s%s(%s %s %s)' % (pre, p, getattr(self.sigs[st.value.func.attr], 'lean', None) or lean_name(st.value.func.attr), o, ' '.join(args))
             if getattr(self, 'ret', None) == 'olist':
                 a = self.typed(st.value, env, 'olist')
                 pre = self.pre(p)
@@ -982,7 +1043,17 @@ class M:
             if o and m in self.sigs and not getattr(self.sigs[m], 'point', False):
                 args = self.bind(c, self.sigs[m], env)
                 pre = self.pre(p)
-                return '%s%s(%s %s %s).bind fun %s =>\n%s' % (pre, p, lean_name(m), o, ' '.join(args), o, K(env, ind))
+                return '%s%s(%s %s %s).bind fun %s =>\n%s' % (pre, p, getattr(self.sigs[m], 'lean', None) or lean_name(m), o, ' '.join(args), o, K(env, ind))
+            if o and m == 'apply_formatting' and len(c.args) == 1 and not c.keywords and 'nid' in env:
+                a, ta = self.ex(c.args[0], env)
+                if ta == 'optstr':
+                    a = self.hoist('Py.optGet %s' % a)
+                elif ta != 'str':
+                    raise Unsupported(ast.unparse(st))
+                pre = self.pre(p)
+                # the whole method (guard, scrubber, core): the model's applyRaw with the caller's fresh-identity counter
+                return ('%s%s(Obj.liftPy (AStr.applyRaw %s nid (SArg.str %s) none none)).bind fun %s =>\n%s'
+                        % (pre, p, o, a, o, K(env, ind)))
             if o and m == 'clip':
                 kw = {k.arg: k.value for k in c.keywords}
                 if c.args or set(kw) - {'start', 'end', 'inplace'} or not (isinstance(kw.get('inplace'), ast.Constant) and kw['inplace'].value is True):
@@ -1279,8 +1350,10 @@ class M:
         if not d:
             raise Unsupported('iterator over ' + ast.unparse(st.iter.args[0]))
         IDX, PT, CUR = [x.id for x in st.target.elts]
-        if any(x in env for x in (IDX, PT, CUR)):
-            raise Unsupported('loop variable shadows an outer variable')
+        if any(x in env and env[x] == 'obj' for x in (IDX, PT, CUR)):
+            raise Unsupported('loop variable shadows an object')
+        # a loop variable that reuses an outer name: the loop's inside, not available afterwards (a later use is refused)
+        env = {k_: v_ for k_, v_ in env.items() if k_ not in (IDX, PT, CUR)}
         state = self.written(st.body, env)
         edits = PT in self.written(st.body, {PT: 'point'})
         if edits and st.iter.args[0].value.id not in state:
@@ -1389,6 +1462,11 @@ class M:
                 out.append(self.as_opt(e, env if n in given else {}, t))
             else:
                 out.append(self.typed(e, env if n in given else {}, t))
+        for n, t in getattr(sig, 'extra', []):
+            # bookkeeping parameters of the translation (the fresh-identity counter): handed on under the same name
+            if env.get(n) != t:
+                raise Unsupported('the callee needs %s' % n)
+            out.append(mangle(n))
         return out
 
     def as_opt(self, e, env, t):
@@ -1406,11 +1484,39 @@ class M:
         """whole method, or — `after`/`entry` given — the statements that follow the first top-level
         `<x> = ….<after>(…)`, as a function of `self` and the variables `entry` = [(name, type)] live there"""
         body = self.fn.body
+        outline = getattr(self, 'outline', None)
         if after is None and after_store is None:
             env = {'self': 'obj'}
             for n, t, _ in self.sig.params:
                 env[n] = t
             params = [(n, t) for n, t, _ in self.sig.params]
+            for n, t in getattr(self, 'extra', []):
+                env[n] = t
+                params.append((n, t))
+            if outline:
+                # the statements up to (and including) the marked one; what follows is the separately translated
+                # function `outline['call']` of the variables `outline['entry']`
+                mark = outline['after_store']
+                idx = None
+                for i, st in enumerate(body):
+                    if mark.startswith('ifany:') and isinstance(st, ast.If) \
+                            and any(isinstance(x, ast.Assign) and len(x.targets) == 1 and ast.unparse(x.targets[0]) == mark[6:] for x in ast.walk(st)):
+                        idx = i
+                        break
+                if idx is None:
+                    raise Unsupported('no statement %s' % mark)
+                body = body[:idx + 1]
+                def tail(e, i):
+                    for n_, t_ in outline['entry']:
+                        if e.get(n_) != t_:
+                            raise Unsupported('%s is not available where %s takes over' % (n_, outline['call']))
+                    if self.aliased and False:
+                        pass
+                    return '  ' * i + '(%s %s %s)' % (outline['call'], 'self', ' '.join(mangle(n_) for n_, _ in outline['entry']))
+                text = self.block(body, env, tail, 1)
+                rty = {'str': 'Except Exc Str'}.get(getattr(self, 'ret', None), 'Except Exc AStr')
+                ps = ' '.join('(%s : %s)' % (mangle(n), LEAN_T[t]) for n, t in params)
+                return '/-- %s -/\ndef %s (self : AStr) %s : %s :=\n%s\ndef %sOk : Bool := true\n' % (doc, name, ps, rty, text, name)
         else:
             idx = None
             for i, st in enumerate(body):
@@ -1620,13 +1726,16 @@ def translate(fns, order, point_fns=None, iter_fns=None, with_assertions=False, 
                     m.ret = spec['ret']
                 out.append(m.lean(ln, doc, spec.get('after'), spec['entry'], spec.get('after_store')))
             else:
-                m = M(fn, dict(sigs))
+                m = M(fn, dict(sigs), spec.get('types'), spec.get('extra'))
                 m.join = bool(spec.get('join'))
+                m.outline = spec.get('outline')
                 m.with_assertions = with_assertions
                 if spec.get('ret'):
                     m.ret = spec['ret']
                 out.append(m.lean(ln, doc))
                 if not spec.get('ret'):
+                    m.sig.extra = list(spec.get('extra') or [])
+                    m.sig.lean = ln
                     sigs[nm] = m.sig
         except Exception as e:   # noqa
             ps = ''
